@@ -79,6 +79,7 @@ func runMiner(c *fw.Ctx) {
 		coinbase := w.Coinbases[0]
 		m.SetExtra([]byte("c01-miner"))
 
+		var storagelessAddr common.Address
 		feed := func(n int) {
 			var txs []*types.Transaction
 			next := map[int]uint64{}
@@ -106,6 +107,33 @@ func runMiner(c *fw.Ctx) {
 				next[s] = nonce + 1
 				txs = append(txs, tx)
 			}
+			// the storage-less contract deployed by the first feed is called and probed
+			// in every later feed (importers restart in between: its code must survive)
+			for k, mk := range []func(nonce uint64, price *big.Int) *types.Transaction{
+				func(nonce uint64, price *big.Int) *types.Transaction {
+					return types.NewTransaction(nonce, storagelessAddr, big.NewInt(0), 150000, price, loggerCallData())
+				},
+				func(nonce uint64, price *big.Int) *types.Transaction {
+					return types.NewTransaction(nonce, addrProbe, big.NewInt(0), 150000, price, gen.WordAddr(storagelessAddr))
+				},
+			} {
+				if storagelessAddr == (common.Address{}) {
+					break
+				}
+				s := (k + r.Intn(len(w.Keys)-1)) % len(w.Keys)
+				nonce, ok := next[s]
+				if !ok {
+					nonce = pool.State().GetNonce(w.Addrs[s])
+				}
+				num := new(big.Int).Add(bc.CurrentBlock().Number(), big.NewInt(1))
+				tx, err := types.SignTx(mk(nonce, big.NewInt(int64(r.Range(1, 40))*1e9)), w.Signer(num), w.Keys[s])
+				if err != nil {
+					panic(err)
+				}
+				next[s] = nonce + 1
+				txs = append(txs, tx)
+				c.Count("miner_storageless_contract_tx_offered")
+			}
 			for _, e := range pool.AddRemotes(txs) {
 				if e != nil {
 					c.Count("miner_pool_refused_tx")
@@ -113,7 +141,20 @@ func runMiner(c *fw.Ctx) {
 			}
 		}
 
+		{
+			// deploy a contract that never writes storage
+			n0 := pool.State().GetNonce(w.Addrs[0])
+			raw := types.NewContractCreation(n0, big.NewInt(0), 300000, big.NewInt(50e9), gen.InitCodeFor(gen.LoggerCode()))
+			tx, err := types.SignTx(raw, w.Signer(big.NewInt(1)), w.Keys[0])
+			if err != nil {
+				panic(err)
+			}
+			if e := pool.AddRemotes([]*types.Transaction{tx}); e[0] != nil {
+				panic(e[0])
+			}
+		}
 		feed(12)
+		storagelessAddr = gen.CreatedAddress(w.Addrs[0], 0)
 		m.Start(coinbase)
 		var mined []*types.Block
 		watchdog := time.After(25 * time.Minute) // generous: firing is inconclusive, never a verdict
@@ -203,10 +244,12 @@ func runMiner(c *fw.Ctx) {
 		}
 		// independent nodes import what the miner produced
 		for _, spec := range []struct {
-			name   string
-			cache  *core.CacheConfig
-			single bool
-		}{{"import-batch-pruning", nil, false}, {"import-single-archive", &core.CacheConfig{Disabled: true}, true}} {
+			name    string
+			cache   *core.CacheConfig
+			single  bool
+			restart bool
+		}{{"import-batch-pruning", nil, false, false}, {"import-single-archive", &core.CacheConfig{Disabled: true}, true, false},
+			{"import-single-restarts-pruning", nil, true, true}, {"import-single-restarts-archive", &core.CacheConfig{Disabled: true}, true, true}} {
 			rep := newReplica(c, spec.name, w, spec.cache)
 			var calls [][]*types.Block
 			if spec.single {
@@ -220,7 +263,11 @@ func runMiner(c *fw.Ctx) {
 				}
 				calls = append(calls, all)
 			}
-			for _, blocks := range calls {
+			for ci, blocks := range calls {
+				if spec.restart && ci > 0 {
+					rep.restart()
+					c.Count("miner_importer_restarts")
+				}
 				idx, err := rep.insert(types.Blocks(blocks), "InsertChain")
 				if err != nil {
 					bad := blocks[min(idx, len(blocks)-1)]
@@ -431,4 +478,8 @@ func runLateStart(c *fw.Ctx) {
 			})
 		}
 	}
+}
+
+func loggerCallData() []byte {
+	return gen.Cat(gen.WordU(2), gen.LogTopic(1).Bytes(), gen.LogTopic(2).Bytes(), gen.LogTopic(3).Bytes(), gen.LogTopic(0).Bytes(), []byte("c01"))
 }
